@@ -490,7 +490,7 @@ def topology_corpus():
 
 
 def run_corpus(chk, rep):
-    if chk.pid in ("C02", "C03", "C04", "C08"):
+    if chk.pid in ("C02", "C03", "C04", "C08", "C13"):
         n = 0
         for name, case in topology_corpus():
             engine.CaseRunner(chk, rep).run(case)
